@@ -900,6 +900,14 @@ func (s *session) startReadAndHandle() {
 		err = s.socket.ReadMessage(ctx.input)
 		vp("read.frame", s, vpb(err != nil), int64(ctx.input.Mtype()))
 		if (err != nil && ctx.GetBodyCodec() == codec.NilCodecID) || !s.goonRead() {
+			if ctx.callCmd != nil {
+				// The reply is already bound to its call and holds callCmd.mu:
+				// complete the call, otherwise the caller and readDisconnected block forever.
+				if err != nil {
+					ctx.callCmd.stat = statBadMessage.Copy(err)
+				}
+				ctx.handleReply()
+			}
 			s.peer.putContext(ctx, false)
 			return
 		}
